@@ -140,6 +140,25 @@ def check_c19(run):
     P.run_sessions(run, pool_sessions, "race-pool", cfg="PoolTraceLocks.cfg", race=True)
     reports += parse_races(stderr_of(run, os.path.join(run.scratch, "traces-race-pool.ndjson")))
     total += len(pool_sessions)
+    # the same scenarios once more without any observer (no events, no gates): the observer's own mutex and the
+    # gates order the bodies and would hide unordered accesses from the race detector
+    def silent(sessions):
+        out = []
+        for s in sessions:
+            c = json.loads(json.dumps(s))
+            c["silent"] = True
+            c["gated"] = False
+            c["id"] = 5000000 + c["id"]
+            out.append(c)
+        return out
+    for label, drv, ss in (("exec", "execdrv", exec_sessions), ("body", "bodydrv", conc + loc), ("pool", "pooldrv", pool_sessions)):
+        binary = run.go_build(drv, race=True)
+        sp = os.path.join(run.scratch, "sessions-silent-%s.ndjson" % label)
+        tp = os.path.join(run.scratch, "traces-silent-%s.ndjson" % label)
+        write_ndjson(sp, silent(ss))
+        run_driver(run, binary, sp, tp)
+        reports += parse_races(stderr_of(run, tp))
+        total += len(ss)
     seen = {}
     for t in reports:
         seen.setdefault(race_key(t), []).append(t)
